@@ -285,11 +285,13 @@ func runLifeMode(mode string, r *vlib.Rand, keys map[string]struct{}) {
 				o.shutdownFrom = "accept-error"
 			}
 		case "c06":
+			c.Rotate = i%4 == 2 // two listeners via gnet.Rotate
 			o.shutdownFrom = sources[i%len(sources)]
 			o.moment = moments[(i/len(sources)+i)%len(moments)]
 			o.npeers = r.Pick(0, 1, 20, 50)
 			o.ticker = r.Bool()
 		case "c07":
+			c.Rotate = i%5 == 3
 			o.canaries = 3
 			o.moment = moments[i%len(moments)]
 			o.npeers = r.Pick(10, 30, 60)
